@@ -35,6 +35,16 @@ var commonAssumptions = []string{
 // All lists the claimed properties.
 var All = []*Prop{
 	{
+		ID:    "C18",
+		Rules: []*core.Rule{rules.MapEncaps, rules.KeyNorm, rules.LazyScan, rules.NumBirth},
+		Explanation: "R-MAPENCAPS: every write of a field of mapEntry/orderedMap/orderedMapIter and every access of their link fields lies in methods of those types (the tombstone/linked-list invariants are then local to map.go); size is +1 only on the insertion edge of set, -1 only on the found edge of remove, 0 only in clear. " +
+			"R-KEYNORM: in lookup the hashed and compared key, and in set the stored key, is φ(key, intToValue(0)) under key == _negativeZero. " +
+			"Key equality across representations: R-LAZYSCAN (an imported Go string never consults its lazily computed UTF-16 form, nor uses its raw bytes for anything encoding-sensitive, before the scan ran; hash() scans) and R-NUMBIRTH (canonical numbers, see C05) — SameValueZero lookups are hash-then-SameAs on representations.",
+		Technique:  "field ownership (who-may-write/read), SSA phi/dominance check of key normalisation, guard-freshness dataflow for the lazy string scan, who-may-construct for numbers",
+		DesignRef:  "DESIGN.md section 4, C18",
+		NotCovered: "iterator liveness under deletion/clear/refill (the tombstone walk in orderedMapIter.next and the relinking in remove/clear): a history property of the data structure, not decided by this family; agreement of the per-type hash functions with SameValueZero beyond the lazy-scan clause",
+	},
+	{
 		ID:    "C20",
 		Rules: []*core.Rule{rules.GuardTable},
 		Explanation: "Clause decided: 'whether the optimised path for unmodified RegExp objects or the generic protocol path is taken' is unobservable only if every property the protocol path reads from the regexp de-optimises the fast path when redefined. R-GUARDTABLE computes G = the constant names passed to guardedObject.guard() for RegExp.prototype, and R = the constant names read with getStr from the value handed to checkStdRegexp (taint followed into static callees) plus those read by the built-in flags getter, and requires R ⊆ G up to an audited exemption table (lastIndex, constructor, source). It also checks that every mutating own-property method of regexpObject clears `standard` and that guardedObject's three string mutators call check().",
